@@ -216,6 +216,15 @@ Algebra == TopOk =>
     /\ (e.k = "pow" /\ IsNum(e.a[2], I(2))) => OkEq(Eval(EBin("mul", e.a[1], e.a[1]), env), v)
     /\ e.k = "mul" => v = Eval(EBin("mul", e.a[2], e.a[1]), env)
 \* the symbolic derivative evaluates to the first Taylor coefficient of the power-series arithmetic
+\* the meaning of a formula is attached to the NAMES of the species, not to the positions they happen to have in the
+\* state vector: declaring the species in the opposite order (and permuting the state with them) changes nothing
+RECURSIVE RenameSp(_)
+RenameSp(e) == IF e.k = "sp" THEN [e EXCEPT !.i = NS + 1 - e.i]
+               ELSE [e EXCEPT !.a = [j \in 1..Len(e.a) |-> RenameSp(e.a[j])]]
+DeclarationOrder == (pc = "done" /\ TopOk) =>
+    LET en == [env EXCEPT !.x = [i \in 1..NS |-> env.x[NS + 1 - i]]] IN
+    /\ Eval(RenameSp(Top.e), en) = Top.v
+    /\ VolEval(RenameSp(Top.e), en) = Top.w
 DVars == {<<"sp", i>> : i \in 1..NS} \cup {<<"par", j>> : j \in 1..NP} \cup {<<"t", 0>>}
 DerivJet == (pc = "done" /\ TopOk) =>
     \A var \in DVars :
